@@ -5,4 +5,5 @@ CONSTANTS
   PipeCap = 1
   CtxAwareSend = TRUE
   Flood = FALSE
+  Http = FALSE
 CHECK_DEADLOCK FALSE
